@@ -6,6 +6,7 @@ else — operand bytes, all registers including the TEMP scratch registers, flag
 memory — is symbolic."""
 from __future__ import annotations
 
+import os
 import re
 import time
 
@@ -500,6 +501,12 @@ def run_path_hist(eng, pre, opcode, hist_idx, block_n=None, addr=0x1000):
     if ra[0] != "ok" and rb[0] != "ok":
         eng.prove("same-outcome", z3.BoolVal(ra == rb), detail=f"{ra} vs {rb}")
         return PathOutcome(ra[0])
+    for mm in (ma, mb):
+        for a_ in mm.reads:
+            eng.watch_cells.append((base.init, a_))
+        for a_, _v in mm.writes:
+            eng.watch_cells.append((base.init, a_))
+    eng.watch_cells.append((base.init, z3.BitVec("k!frame", W)))
     text = f"{ra} after history '{desc}'"
     eng.prove("same-outcome", z3.BoolVal(ra == rb), detail=f"{ra} vs {rb}")
     for r in REGS + ("PC",):
@@ -550,11 +557,15 @@ def hist_entry(unit):
 # --------------------------------------------------------------------------- C07 bounded companion
 def unit_hist_concrete(unit):
     """Bounded stand-in (concrete values): process-wide / per-object caches keyed on part of the
-    instruction bytes cannot be reached symbolically (hashing a symbolic key), so the same 2-safety
-    statement is also sampled concretely: the history is the same opcode with the same leading k
-    bytes but a different tail, executed (a) on another Emulator object in the same process and
-    (b) on the same Emulator object, before the instruction under test."""
+    instruction bytes cannot be reached symbolically (hashing a symbolic key), so the same statement
+    is also sampled concretely.  Reference: the sample executed in a FRESH interpreter (nothing ran
+    before it).  Subject: the same sample executed in this process after a history that shares the
+    leading k bytes of the instruction but has a different tail, executed (a) on another Emulator
+    object and (b) on the same Emulator object."""
+    import json
     import random
+    import subprocess
+    import sys
     from symx import env
     env.setup()
     EMU, OPC, asm_str = _mods()
@@ -563,8 +574,35 @@ def unit_hist_concrete(unit):
     pre, opcode = unit.get("pre"), unit["opcode"]
     rng = random.Random((unit.get("seed", 0) << 16) ^ (opcode << 4) ^ (pre or 0))
     code0 = ([pre] if pre is not None else []) + [opcode]
-    obs = []
     n = unit.get("samples", 6)
+    samples, hists = [], []
+    addr = 0x1000
+    for s in range(n):
+        tail = [rng.randrange(256) for _ in range(6)]
+        if s % 2 == 0:
+            tail[0] = rng.choice([0x04, 0x24, 0x34, 0x84, 0xC4, 0x00, 0x80, 0xC0, 0x42])
+        k = s % 6
+        htail = tail[:k] + [(x ^ rng.randrange(1, 256)) for x in tail[k:]]
+        regs = dict(BA=rng.randrange(1 << 16), I=rng.choice([1, 2, 3]), X=0x20000 + rng.randrange(0x1000), Y=0x30000 + rng.randrange(0x1000),
+                    U=0x40000 + rng.randrange(0x1000), S=0x50000 + rng.randrange(0x1000), F=rng.randrange(4), PC=0)
+        base = {0x100000 + i: rng.randrange(256) for i in range(256)}
+        for a in range(0x20000, 0x20000 + 0x1100, 7):
+            base[a] = rng.randrange(256)
+        img = dict(base)
+        for i, b in enumerate(code0 + tail):
+            img[addr + i] = b
+        himg = dict(base)
+        for i, b in enumerate(code0 + htail):
+            himg[addr + i] = b
+        samples.append(dict(addr=addr, regs=regs, mem={str(a): v for a, v in img.items()}))
+        hists.append(himg)
+    ref = subprocess.run([sys.executable, "-m", "contracts.cpu_ref"], input=json.dumps(samples), capture_output=True, text=True,
+                         timeout=280, env=dict(os.environ, VERIF_REPO=os.environ.get("VERIF_REPO", "/repo")), cwd=os.path.dirname(os.path.dirname(os.path.abspath(__file__))))
+    if ref.returncode != 0:
+        return dict(unit=unit, status="undecided", error="reference interpreter failed: " + ref.stderr[-300:], kinds={}, obligations=0, proved=0,
+                    failed=[], nfailed=0, unknown=0, undecided_notes=[], stats={}, wall_s=round(time.time() - t0, 2))
+    want = json.loads(ref.stdout)
+    obs = []
 
     def make(mem, regs):
         e = EMU.Emulator(EMU.Memory(lambda a: mem.get(a, 0), lambda a, v: mem.__setitem__(a, v & 0xFF)), reset_on_init=False)
@@ -572,39 +610,20 @@ def unit_hist_concrete(unit):
             e.regs.set(RN[r], v)
         return e
 
-    def run(e, addr):
+    def run(e, a):
         try:
-            e.execute_instruction(addr)
-            out = "ok"
+            e.execute_instruction(a)
+            return "ok"
         except Exception as ex:  # noqa: BLE001
-            out = type(ex).__name__
-        return out
+            return type(ex).__name__
 
-    for s in range(n):
-        tail = [rng.randrange(256) for _ in range(6)]
-        if s % 2 == 0:
-            tail[0] = rng.choice([0x04, 0x24, 0x34, 0x84, 0xC4, 0x00, 0x80, 0xC0, 0x42])
-        k = rng.randrange(0, 6)
-        htail = tail[:k] + [(x ^ rng.randrange(1, 256)) for x in tail[k:]]
-        regs = dict(BA=rng.randrange(1 << 16), I=rng.choice([1, 2, 3]), X=0x20000 + rng.randrange(0x1000), Y=0x30000 + rng.randrange(0x1000),
-                    U=0x40000 + rng.randrange(0x1000), S=0x50000 + rng.randrange(0x1000), F=rng.randrange(4))
-        base = {0x100000 + i: rng.randrange(256) for i in range(256)}
-        addr = 0x1000
-        img = dict(base)
-        for i, b in enumerate(code0 + tail):
-            img[addr + i] = b
-        himg = dict(base)
-        for i, b in enumerate(code0 + htail):
-            himg[addr + i] = b
-        # run A: pristine object, nothing before
-        ma = dict(img)
-        ea = make(ma, regs)
-        oa = run(ea, addr)
+    for s, himg, w in zip(samples, hists, want):
+        regs = s["regs"]
+        img = {int(a): v for a, v in s["mem"].items()}
         for variant in ("other-object", "same-object"):
             mb = dict(img)
             if variant == "other-object":
-                hm = dict(himg)
-                run(make(hm, regs), addr)
+                run(make(dict(himg), regs), addr)
                 eb = make(mb, regs)
             else:
                 cur = {"m": dict(himg)}
@@ -617,11 +636,14 @@ def unit_hist_concrete(unit):
                     eb.regs.set(RN[r], v)
                 eb.state.halted = False
             ob_ = run(eb, addr)
-            same = oa == ob_ and all(ea.regs.get(RN[r]) == eb.regs.get(RN[r]) for r in ("BA", "I", "X", "Y", "U", "S", "F", "PC")) \
-                and {a: v for a, v in ma.items() if v} == {a: v for a, v in mb.items() if v} and ea.state.halted == eb.state.halted
+            got = dict(outcome=ob_, regs={r: eb.regs.get(RN[r]) for r in ("BA", "I", "X", "Y", "U", "S", "F", "PC")},
+                       mem={str(a): v for a, v in mb.items() if v}, halted=bool(eb.state.halted))
+            same = got == w
+            code = bytes(img[addr + i] for i in range(len(code0) + 6)).hex()
+            hcode = bytes(himg[addr + i] for i in range(len(code0) + 6)).hex()
             obs.append(core.Obligation(f"concrete-history:{variant}", "proved" if same else "failed", backend="enumeration",
-                                       detail=None if same else f"bytes {bytes(code0 + tail).hex()} after history {bytes(code0 + htail).hex()} ({variant}): "
-                                       f"{oa}/{ob_} PC {ea.regs.get(RN.PC):#x}/{eb.regs.get(RN.PC):#x} BA {ea.regs.get(RN.BA):#x}/{eb.regs.get(RN.BA):#x}"))
+                                       detail=None if same else f"bytes {code} after history {hcode} ({variant}): fresh interpreter {w['outcome']} PC={w['regs']['PC']:#x} BA={w['regs']['BA']:#x}; "
+                                                                f"with history {got['outcome']} PC={got['regs']['PC']:#x} BA={got['regs']['BA']:#x}"))
     return dict(unit=unit, status="ok", error=None, kinds={"samples": n}, obligations=len(obs),
                 proved=sum(o.status == "proved" for o in obs), failed=[o.as_dict() for o in obs if o.status == "failed"][:6],
                 nfailed=sum(o.status == "failed" for o in obs), unknown=0, undecided_notes=[], stats=dict(paths=0, queries=0, solver_s=0.0),
